@@ -653,6 +653,39 @@ func selfcheck(t *testing.T, c core.Cfg, part *core.Partial) {
 			part.Violations = append(part.Violations, core.ViolationRec{Class: v.Class, Detail: v.Detail, Replay: p})
 		}
 	}
+	if c.Property == "C06" && c.Mode != "race" && c.Worker == 3%int(core.EnvInt("VERIF_WORKERS", 1)) {
+		// Swagger 2.0 documents cut off after a mapping key (a null value where the converter
+		// expects an object), and an array definition without items: rejected documents, which
+		// must fail the compile with an error that names them
+		hdr := "swagger: \"2.0\"\ninfo:\n  title: x\n  version: v\n"
+		for k, tail := range []string{
+			"paths:\n  /a:\n",
+			"paths:\n  /a:\n    get:\n      responses:\n        200:\n",
+			"paths:\n  /a:\n    get:\n      parameters:\n        -\n      responses:\n        200:\n          description: ok\n",
+			"paths: {}\ndefinitions:\n  A:\n",
+			"paths: {}\ndefinitions:\n  A:\n    type: object\n    properties:\n      x:\n",
+			"paths: {}\ndefinitions:\n  A:\n    allOf:\n      -\n",
+			"paths: {}\ndefinitions:\n  A:\n    type: array\n",
+		} {
+			w := &Workload{Family: "plain", Template: fmt.Sprintf("selfcheck-cut-swagger-%d", k), Files: []*FileSpec{
+				{ID: 0, Path: "f0.sysl", Kind: "sysl", Imports: []ImportSpec{{To: 1, Spell: "f1.yaml", As: foreignAs(1)}, {To: 2, Spell: "f2"}}},
+				{ID: 1, Path: "f1.yaml", Kind: "swagger"},
+				{ID: 2, Path: "f2.sysl", Kind: "sysl"}}}
+			for _, f := range w.Files {
+				f.Text = render(w, f)
+			}
+			w.Files[1].Text = hdr + tail
+			w.Faults = []Fault{{File: 1, Kind: "bad-foreign", Certain: true}}
+			o := Execute(t, w, core.First{}, 100000)
+			part.Counters.Inc("selfcheck_cut_off_swagger_document")
+			part.Counters.Inc("fault_bad-foreign")
+			for _, v := range Check(w, Model(w), o, nil, true) {
+				p := writeReplay(c, found{v: v, w: w, picks: o.Picks, o: o}, true, 0)
+				part.Violations = append(part.Violations, core.ViolationRec{Class: v.Class, Detail: v.Detail, Replay: p})
+				break
+			}
+		}
+	}
 	w := &Workload{Family: "plain", Template: "selfcheck", Files: []*FileSpec{{ID: 0, Path: "f0.sysl", Kind: "sysl"}}}
 	w.Files[0].Text = render(w, w.Files[0])
 	o := Execute(t, w, core.First{}, 100)
